@@ -606,3 +606,36 @@ class AddressGeneratorPub(AddressGeneratorPrv):
 
 CONTRACTS.append(AddressGeneratorPrv())
 CONTRACTS.append(AddressGeneratorPub())
+
+
+class CanarySaltWithSpace(SeedFromMnemonic):
+    """must FAIL: spec with salt prefix 'mnemonic ' """
+    props = ("C03",)
+
+    def post(self, c, I, out):
+        if out.returned:
+            want = U.pbkdf2_sha512(utf8(nfkd(I.m)), utf8(mk_str(["mnemonic ", nfkd(I.p)])), 2048, 64)
+            yield "canary.salt", eq(out.value, want)
+
+
+class CanaryWatchOnlyHasBip85(WalletInit):
+    """must FAIL: spec demanding BIP85 for every wallet"""
+    props = ("C14",)
+
+    def post(self, c, I, out):
+        if out.returned:
+            yield "canary.bip85_always", c.deref(out.value).fields.get("bip85") is not None
+
+
+class CanaryFreshDrawsOneBitLess(_NewWallet):
+    """must FAIL: spec expecting ENT - 1 bits"""
+    props = ("C08",)
+    words, via = 12, "new_wallet"
+
+    def post(self, c, I, out):
+        draws = [e[1] for e in c.effects if e[0] == "draw"]
+        if draws:
+            yield "canary.range", draws[0][3] == 2 ** (I.bits - 1)
+
+
+CANARIES += [CanarySaltWithSpace(), CanaryWatchOnlyHasBip85(), CanaryFreshDrawsOneBitLess()]
